@@ -102,10 +102,16 @@ Definition kube_ok (t : task) : Prop :=
   t_type t = HookRun -> t_btype t = BKube -> exists c r, t_ctxs t = c :: r /\ (1 <= crk c)%nat.
 Definition tok (cfg : config) (t : task) : Prop := task_ok cfg t /\ kube_ok t.
 
+(* a task as it was created: one context, allowFailure as its binding declares it (only the head of a
+   queue is ever combined) *)
+Definition asis (cfg : config) (t : task) : Prop :=
+  t_type t = HookRun -> exists c, t_ctxs t = [c] /\ t_allow t = ctx_ok cfg c.
+
 Record LI (cfg : config) (l : list task) : Prop := mkLI {
   li_fail : Forall fail0 (tl l);        (* only the head can have failed before *)
   li_tok : Forall (tok cfg) l;
-  li_mono : mono (qranks l)             (* no Synchronization (or EnableKube) behind an event/schedule context *)
+  li_mono : mono (qranks l);            (* no Synchronization (or EnableKube) behind an event/schedule context *)
+  li_asis : Forall (asis cfg) (tl l)    (* only the head can have been combined *)
 }.
 
 Definition head_ok (cfg : config) (q : qstate) : Prop :=
@@ -155,15 +161,15 @@ Lemma combine_keeps cfg v0 t rest :
   /\ should_run v0 (fst (combine t rest)) = true
   /\ t_type (fst (combine t rest)) = HookRun.
 Proof.
-  intros Ty [Lf Lt Lm] SR. unfold combine.
+  intros Ty [Lf Lt Lm La] SR. unfold combine.
   pose proof (take_block_split t rest) as Sp. pose proof (take_block_hookrun t rest Ty) as Hb.
   destruct (take_block t rest) as [block rest']. cbn [fst snd] in Sp, Hb.
   destruct block as [|b bs].
   - cbn [fst snd]. split; [constructor; assumption | split; assumption].
   - cbn [fst snd]. remember (b :: bs) as block eqn:Eblock.
     set (l := t_ctxs t ++ flat_map t_ctxs block).
-    cbn [tl] in Lf. rewrite Sp in Lf, Lt, Lm.
-    apply Forall_app in Lf as [_ Lf'].
+    cbn [tl] in Lf, La. rewrite Sp in Lf, Lt, Lm, La.
+    apply Forall_app in Lf as [_ Lf']. apply Forall_app in La as [_ La'].
     apply Forall_cons_iff in Lt as [Tt Lt0]. apply Forall_app in Lt0 as [Ltb Lt'].
     assert (Ml : mono (map crk l ++ qranks rest')).
     { change (qranks (t :: block ++ rest')) with (tranks t ++ qranks (block ++ rest')) in Lm.
@@ -206,6 +212,7 @@ Proof.
         apply mono_app. split; [now apply compact_mono|]. split; [exact Ml2|].
         intros x y Hx Hy. apply Ml3; [|exact Hy].
         apply in_map_iff in Hx as [c [<- Hc]]. apply in_map_iff. exists c. split; [reflexivity | now apply compact_in].
+      * cbn [tl]. exact La'.
     + unfold should_run in *. unfold set_combined at 2. cbn [t_execsync].
       destruct (is_sync t) eqn:Sy.
       * cbn [andb] in SR. apply negb_true_iff in SR. rewrite SR. now rewrite andb_false_r.
@@ -308,10 +315,11 @@ Proof. intros H. destruct l; [exact H|]. now inversion H. Qed.
 
 Lemma LI_tail cfg t r : LI cfg (t :: r) -> LI cfg r.
 Proof.
-  intros [Lf Lt Lm]. constructor.
+  intros [Lf Lt Lm La]. constructor.
   - apply Forall_tl. exact Lf.
   - now inversion Lt.
   - change (qranks (t :: r)) with (tranks t ++ qranks r) in Lm. exact (mono_app_r _ _ Lm).
+  - apply Forall_tl. exact La.
 Qed.
 
 Lemma sync_tasks_tok cfg h : names_ok cfg -> In h cfg ->
@@ -333,11 +341,20 @@ Proof. induction l as [|b l IH]; simpl; [constructor|]. constructor; [reflexivit
 Lemma sync_tasks_fail0 h l : Forall fail0 (map (sync_task h) l).
 Proof. induction l as [|b l IH]; simpl; constructor; [reflexivity | exact IH]. Qed.
 
+Lemma sync_tasks_asis cfg h : names_ok cfg -> In h cfg ->
+  forall l, incl l (h_kube h) -> Forall (asis cfg) (map (sync_task h) l).
+Proof.
+  intros Hn Hh. induction l as [|b l IH]; intros Hi; [constructor|]. simpl. constructor.
+  - intros _. unfold sync_task. cbn [t_ctxs t_allow]. eexists. split; [reflexivity|].
+    unfold ctx_ok. cbn [c_kind c_binding]. symmetry. apply (kube_allow_lookup cfg h b Hn Hh). apply Hi. now left.
+  - apply IH. intros x Hx. apply Hi. now right.
+Qed.
+
 Lemma LI_sync_tasks cfg h t rest :
   names_ok cfg -> In h cfg -> t_type t = EnableKube -> LI cfg (t :: rest) ->
   LI cfg (map (sync_task h) (h_kube h) ++ rest).
 Proof.
-  intros Hn Hh Ty [Lf Lt Lm]. cbn [tl] in Lf. constructor.
+  intros Hn Hh Ty [Lf Lt Lm La]. cbn [tl] in Lf, La. constructor; [| | |apply Forall_tl; apply Forall_app; split; [apply sync_tasks_asis; auto; apply incl_refl | exact La]].
   - apply Forall_tl. apply Forall_app. split; [apply sync_tasks_fail0 | exact Lf].
   - apply Forall_app. split; [apply sync_tasks_tok; auto; apply incl_refl | now inversion Lt].
   - change (qranks (t :: rest)) with (tranks t ++ qranks rest) in Lm. unfold tranks in Lm. rewrite Ty in Lm.
@@ -448,9 +465,9 @@ Proof.
   simpl. rewrite E. constructor; [reflexivity | now apply IH].
 Qed.
 
-Lemma LI_app_late cfg l new : LI cfg l -> Forall (late cfg) new -> LI cfg (l ++ new).
+Lemma LI_app_late cfg l new : LI cfg l -> Forall (late cfg) new -> Forall (asis cfg) new -> LI cfg (l ++ new).
 Proof.
-  intros [Lf Lt Lm] Hl. constructor.
+  intros [Lf Lt Lm La] Hl Has. constructor; [| | |destruct l as [|t0 r0]; [apply Forall_tl, Has | cbn [tl app] in *; apply Forall_app; split; assumption]].
   - assert (F : Forall fail0 new) by (eapply Forall_impl; [|exact Hl]; intros a (Ha & _); exact Ha).
     destruct l as [|t r]; [apply Forall_tl, F|]. cbn [tl app] in *. apply Forall_app. split; assumption.
   - apply Forall_app. split; [exact Lt|]. eapply Forall_impl; [|exact Hl]. intros a (_ & Ha & _); exact Ha.
@@ -460,11 +477,12 @@ Proof.
     pose proof (qranks_le2 l) as F. rewrite Forall_forall in F. now apply F.
 Qed.
 
-Lemma app_many_QI cfg ts q : QI cfg q -> Forall (late cfg) ts -> QI cfg (app_many ts q).
+Lemma app_many_QI cfg ts q : QI cfg q -> Forall (late cfg) ts -> Forall (asis cfg) ts -> QI cfg (app_many ts q).
 Proof.
-  intros [HL HH] Hl. split.
-  - unfold app_many. cbn [q_items]. apply LI_app_late; [exact HL|].
-    apply Forall_forall. intros t Ht. apply filter_In in Ht as [Ht _]. rewrite Forall_forall in Hl. now apply Hl.
+  intros [HL HH] Hl Ha. split.
+  - unfold app_many. cbn [q_items]. apply LI_app_late; [exact HL| |].
+    + apply Forall_forall. intros t Ht. apply filter_In in Ht as [Ht _]. rewrite Forall_forall in Hl. now apply Hl.
+    + apply Forall_forall. intros t Ht. apply filter_In in Ht as [Ht _]. rewrite Forall_forall in Ha. now apply Ha.
   - unfold head_ok, app_many, is_running. cbn [q_running q_items]. intros R.
     destruct (HH R) as (t & r & E & Ty & SR). rewrite E. exists t, (r ++ filter (fun t0 => N.eqb (t_queue t0) (q_name q)) ts).
     split; [reflexivity | split; assumption].
@@ -493,12 +511,32 @@ Proof.
   - unfold kube_ok. cbn [t_ctxs]. intros _ _. eexists; eexists. split; [reflexivity|]. unfold crk, rk. cbn [c_kind]. lia.
 Qed.
 
+Lemma sched_tasks_asis cfg on c : names_ok cfg -> Forall (asis cfg) (sched_tasks cfg on c).
+Proof.
+  intros Hn. apply Forall_forall. intros t Ht. unfold sched_tasks in Ht.
+  apply in_flat_map in Ht as [h [Hh Ht]]. destruct (mem_N (h_id h) on); [|destruct Ht].
+  apply in_flat_map in Ht as [b [Hb Ht]]. destruct (N.eqb (sb_cron b) c); [|destruct Ht].
+  destruct Ht as [<-|[]]. intros _. cbn [t_ctxs t_allow]. eexists. split; [reflexivity|].
+  unfold ctx_ok. cbn [c_kind c_binding]. symmetry. exact (sched_allow_lookup cfg h b Hn Hh Hb).
+Qed.
+
+Lemma kube_tasks_asis cfg unl m o : names_ok cfg -> Forall (asis cfg) (kube_tasks cfg unl m o).
+Proof.
+  intros Hn. apply Forall_forall. intros t Ht. unfold kube_tasks in Ht.
+  destruct (mem_N m unl); [|destruct Ht].
+  apply in_flat_map in Ht as [h [Hh Ht]].
+  apply in_flat_map in Ht as [b [Hb Ht]]. destruct (N.eqb (kb_mon b) m); [|destruct Ht].
+  destruct Ht as [<-|[]]. intros _. cbn [t_ctxs t_allow]. eexists. split; [reflexivity|].
+  unfold ctx_ok. cbn [c_kind c_binding]. symmetry. exact (kube_allow_lookup cfg h b Hn Hh Hb).
+Qed.
+
 Lemma LI_incr_fail cfg t rest : LI cfg (t :: rest) -> LI cfg (incr_fail t :: rest).
 Proof.
-  intros [Lf Lt Lm]. constructor.
+  intros [Lf Lt Lm La]. constructor.
   - exact Lf.
   - inversion Lt as [|? ? [T1 T2] Lr]; subst. constructor; [|exact Lr]. split; [exact T1 | exact T2].
   - exact Lm.
+  - exact La.
 Qed.
 
 Lemma finish_one_QI cfg ok w q : QI cfg q -> QI cfg (finish_one ok false w q).
@@ -528,8 +566,8 @@ Lemma step_q_QI cfg a on unl qok q :
 Proof.
   intros Hn Ha HQ. unfold step_q. rewrite Ha. cbn [orb]. apply adv_one_QI; [exact Hn|].
   destruct a; try exact HQ.
-  - apply app_many_QI; [exact HQ | now apply sched_tasks_late].
-  - apply app_many_QI; [exact HQ | now apply kube_tasks_late].
+  - apply app_many_QI; [exact HQ | now apply sched_tasks_late | now apply sched_tasks_asis].
+  - apply app_many_QI; [exact HQ | now apply kube_tasks_late | now apply kube_tasks_asis].
   - destruct (N.eqb (q_name q) q0); [now apply finish_one_QI | exact HQ].
   - destruct (N.eqb (q_name q) q0); [now apply finish_one_QI | exact HQ].
   - destruct (N.eqb (q_name q) q0); [now apply elapse_one_QI | exact HQ].
@@ -572,7 +610,14 @@ Proof.
   destruct (S1 (startup_hooks cfg)) as [A1 A2]. destruct (S2 cfg) as [B1 B2].
   assert (All : Forall (fun t => fail0 t /\ tok cfg t) (map startup_task (startup_hooks cfg) ++ flat_map enable_tasks cfg))
     by (apply Forall_app; split; assumption).
-  constructor.
+  assert (As : Forall (asis cfg) (map startup_task (startup_hooks cfg) ++ flat_map enable_tasks cfg)).
+  { apply Forall_app. split.
+    - apply Forall_forall. intros t Ht. apply in_map_iff in Ht as [h [<- _]]. intros _.
+      unfold startup_task. cbn [t_ctxs t_allow]. eexists. split; [reflexivity|]. reflexivity.
+    - apply Forall_forall. intros t Ht. apply in_flat_map in Ht as [h [_ Ht]]. intros Ty.
+      unfold enable_tasks in Ht. destruct (h_kube h); destruct (h_sched h); cbn in Ht;
+        repeat (destruct Ht as [<-|Ht]; [cbn in Ty; discriminate|]); destruct Ht. }
+  constructor; [| | |apply Forall_tl; exact As].
   - apply Forall_tl. eapply Forall_impl; [|exact All]. intros a [Ha _]; exact Ha.
   - eapply Forall_impl; [|exact All]. intros a [_ Ha]; exact Ha.
   - rewrite qranks_app. apply mono_app. split; [apply (mono_const 0), A2|]. split; [apply (mono_const 1), B2|].
@@ -973,6 +1018,40 @@ Qed.
 Lemma so_bad_observe cfg s : so_bad (observe cfg s) = false.
 Proof. reflexivity. Qed.
 
+Lemma waiting_task_ok_asis cfg t : asis cfg t -> waiting_task_ok cfg t = true.
+Proof.
+  intros H. unfold waiting_task_ok. destruct (t_type t) eqn:Ty; try reflexivity.
+  destruct (H Ty) as (c & Ec & Al). rewrite Ec, Al. unfold ctx_policy, ctx_ok. apply eqb_reflx.
+Qed.
+
+Lemma waiting_tasks_ok_QI cfg s : Forall (QI cfg) (queues s) -> waiting_tasks_ok cfg (observe cfg s) = true.
+Proof.
+  intros H. unfold waiting_tasks_ok. rewrite so_queues_observe. apply forallb_forall. intros o Ho.
+  apply in_map_iff in Ho as [q [<- Hq]]. cbn [qobs_of qo_items].
+  assert (Hq' : In q (queues s)) by (eapply Permutation_in; [apply sort_queues_perm | exact Hq]).
+  rewrite Forall_forall in H. destruct (H q Hq') as [[_ _ _ La] _].
+  apply forallb_forall. intros t Ht. apply waiting_task_ok_asis. rewrite Forall_forall in La. now apply La.
+Qed.
+
+Lemma step_stop_queues cfg s : queues (step cfg s Stop) = queues s.
+Proof. unfold step. cbn. unfold advance. cbn [stopped]. reflexivity. Qed.
+
+Lemma waiting_tasks_ok_step cfg s a : names_ok cfg -> SI cfg s -> stopped s = false ->
+  waiting_tasks_ok cfg (observe cfg (step cfg s a)) = true.
+Proof.
+  intros Hn HS St. destruct (is_stop a) eqn:Sa.
+  - destruct a; try discriminate.
+    assert (E : forall o1 o2, so_queues o1 = so_queues o2 -> waiting_tasks_ok cfg o1 = waiting_tasks_ok cfg o2)
+      by (intros o1 o2 E; unfold waiting_tasks_ok; now rewrite E).
+    unfold waiting_tasks_ok. rewrite so_queues_observe, step_stop_queues.
+    pose proof (waiting_tasks_ok_QI cfg s (proj2 HS St)) as W. unfold waiting_tasks_ok in W.
+    rewrite so_queues_observe in W.
+    apply forallb_forall. intros o Ho. apply in_map_iff in Ho as [q [<- Hq]]. cbn [qobs_of qo_items].
+    rewrite forallb_forall in W. specialize (W (qobs_of s q) (in_map _ _ _ Hq)). exact W.
+  - apply waiting_tasks_ok_QI. apply (proj2 (step_SI cfg s a Hn HS)).
+    rewrite step_stopped, St, Sa. reflexivity.
+Qed.
+
 Lemma step_ok_holds cfg s a :
   names_ok cfg -> SI cfg s ->
   step_ok cfg (stopped s) a (observe cfg s) (observe cfg (step cfg s a)) = true.
@@ -983,7 +1062,7 @@ Proof.
     + destruct ok; [reflexivity|]. now rewrite andb_false_r.
     + now rewrite andb_false_r.
     + now rewrite andb_false_r.
-  - rewrite (clause_delay_kept cfg s a (proj1 HS) St). cbn [orb andb].
+  - rewrite (clause_delay_kept cfg s a (proj1 HS) St), (waiting_tasks_ok_step cfg s a Hn HS St). cbn [orb andb].
     destruct a; try reflexivity.
     + destruct ok; [reflexivity|]. now apply clause_finish_fail.
     + now apply clause_finish_wait.
